@@ -136,6 +136,44 @@ Fixpoint same_mod_vi (a b : list tparam) : bool :=
   | _, _ => false
   end.
 
+(** * From the spec's list to the list on the wire (u_connection.go newUClientConnection on the
+      connection's own copy of the extension: SuppressQUICTransportParams, the optional
+      per-dial shuffle, wire.PopulateFromUQUIC filling in an empty initial_source_connection_id) *)
+
+Definition qtpGrease : Z := 27.
+Definition is_grease_id (id : Z) : bool := (qtpGrease <=? id) && ((id - qtpGrease) mod 31 =? 0).
+
+Definition suppressed (sup : list Z) (id : Z) : bool :=
+  existsb (fun s => if s =? qtpGrease then is_grease_id id else s =? id) sup.
+
+Definition suppress_list (sup : list Z) (ps : list tparam) : list tparam :=
+  filter (fun p => negb (suppressed sup (fst p))) ps.
+
+Definition fill_iscid (scid : list Z) (ps : list tparam) : list tparam :=
+  map (fun p => if (fst p =? tpInitialSourceConnectionID) && (match snd p with [] => true | _ => false end)
+                then (fst p, scid) else p) ps.
+
+Definition dial_list (sup : list Z) (scid : list Z) (ps : list tparam) : list tparam :=
+  fill_iscid scid (suppress_list sup ps).
+
+(* equality of two entries, the version_information value being an oracle *)
+Definition same_entry (p q : tparam) : bool :=
+  (fst p =? fst q) && (if is_vi (fst p) then (length (snd p) =? length (snd q))%nat else eq_bytes (snd p) (snd q)).
+
+Fixpoint remove_entry (p : tparam) (l : list tparam) : option (list tparam) :=
+  match l with
+  | [] => None
+  | q :: t => if same_entry p q then Some t
+              else match remove_entry p t with Some t' => Some (q :: t') | None => None end
+  end.
+
+(* [a] is a permutation of [b] (entries compared with [same_entry]) *)
+Fixpoint perm_mod_vi (a b : list tparam) : bool :=
+  match a with
+  | [] => match b with [] => true | _ => false end
+  | p :: t => match remove_entry p b with Some b' => perm_mod_vi t b' | None => false end
+  end.
+
 (** * Config (config.go) *)
 
 Record config := mkC {
@@ -258,6 +296,8 @@ Inductive ev :=
 | EvData (ty n : Z)        (* peer: n more bytes on the representative stream of type ty (0 bidi-local, 1 bidi-remote, else uni) *)
 | EvOpen (ty n : Z)        (* peer: opens n more streams (ty 1 bidi, else uni) *)
 | EvCID (n : Z)            (* peer: n NEW_CONNECTION_ID frames with fresh sequence numbers *)
+| EvCIDRotate (k : Z)      (* peer: one NEW_CONNECTION_ID with a fresh sequence number whose Retire Prior To retires
+                              k >= 1 of the IDs the client stores (the one in use and the k-1 lowest queued ones) *)
 | EvDgram (len : Z)        (* peer: one DATAGRAM frame of total length len *)
 | EvGrant (k : kind) (w : Z) (* client: MAX_DATA / MAX_STREAM_DATA / MAX_STREAMS raising limit k to w *)
 | EvRetireCID              (* client: retires one stored connection ID *)
@@ -298,6 +338,12 @@ Definition client_step (e : env) (s : state) (x : ev) : state * option Z :=
   | EvCID n =>
     if negb (fits_client s KCID n) then (s, Some ConnectionIDLimitError)           (* connIDManager.Add: len(queue) >= MaxActiveConnectionIDs *)
     else (bump s KCID n, None)
+  | EvCIDRotate k =>
+    (* connIDManager.add: queued IDs below Retire Prior To are retired, the new ID is queued, the ID in
+       use is retired and replaced from the queue (updateConnectionID); Add checks the limit after all
+       of it (RFC 9000 5.1.1: the count is taken after retirement) *)
+    if negb (fits_client s KCID (1 - k)) then (s, Some ConnectionIDLimitError)
+    else (bump s KCID (1 - k), None)
   | EvDgram len =>
     if l_dgram (e_enf e) =? 0 then (s, Some FrameEncodingError)                    (* FrameParser.ParseType: unknown frame type *)
     else if len >? l_dgram (e_enf e) then (s, Some ProtocolViolation)              (* handleDatagramFrame *)
@@ -331,6 +377,7 @@ Definition peer_ok (e : env) (s : state) (x : ev) : bool :=
     (1 <=? n) && ((ty =? 0) || fits_peer s (cnt_kind ty) (implicit_open s ty)) && fits_peer s (sd_kind ty) n && fits_peer s KConn n
   | EvOpen ty n => (1 <=? n) && fits_peer s (cnt_kind ty) n
   | EvCID n => (0 <=? n) && fits_peer s KCID n
+  | EvCIDRotate k => (1 <=? k) && (k <=? used (s KCID)) && fits_peer s KCID (1 - k)
   | EvDgram len => (1 <=? len) && (len <=? dgram_cap (e_adv e))
   | EvGrant _ _ => true
   | EvRetireCID => true
